@@ -14,7 +14,7 @@ use ckc_rs::cards::three::Three;
 use ckc_rs::cards::two::Two;
 use ckc_rs::cards::{HandRanker, HandValidator, Permutator};
 use ckc_rs::deck::Deck;
-use ckc_rs::hand_rank::HandRank;
+use ckc_rs::hand_rank::{HandRank, HandRankName};
 use ckc_rs::{evaluate, parse, CKCNumber, CardNumber, CardRank, CardSuit, PokerCard, Shifty};
 use std::fmt::Write as _;
 use std::io::{BufRead, Write};
@@ -430,6 +430,14 @@ pub fn exec(lineno: usize, l: &str) -> String {
                 push_opt(&mut o, guard(|| b(h.contain_blank())));
             });
         },
+        // projection for C04: only "is the hand reported valid?" (the property does not fix the helper predicates)
+        "isvalid" => {
+            let v = nums();
+            let n = v[0] as usize;
+            with_hand!(n, &v[1..], h, {
+                push_opt(&mut o, guard(|| b(h.is_valid())));
+            });
+        },
         "rank" => {
             let v = nums();
             let n = v[0] as usize;
@@ -477,6 +485,48 @@ pub fn exec(lineno: usize, l: &str) -> String {
                 },
                 6 => vals(&Six::from(a6(&v[1..])), &mut o),
                 7 => vals(&Seven::from(a7(&v[1..])), &mut o),
+                _ => panic!("bad size"),
+            }
+        },
+        // projection for C02: does every entry point of a six/seven-slot hand return the best (lowest non-zero)
+        // value among its five-slot sub-hands, each ranked on its own as a Five?
+        "best" => {
+            let v = nums();
+            let n = v[0] as usize;
+            let ws = &v[1..];
+            let m = guard(|| {
+                let mut m = 0u16;
+                let mut idx = [0usize, 1, 2, 3, 4];
+                loop {
+                    let five = [ws[idx[0]], ws[idx[1]], ws[idx[2]], ws[idx[3]], ws[idx[4]]];
+                    let x = Five::from(a5(&five)).hand_rank_value();
+                    if x != 0 && (m == 0 || x < m) {
+                        m = x;
+                    }
+                    let mut i = 5;
+                    while i > 0 && idx[i - 1] == n - 5 + i - 1 {
+                        i -= 1;
+                    }
+                    if i == 0 {
+                        break;
+                    }
+                    idx[i - 1] += 1;
+                    for j in i..5 {
+                        idx[j] = idx[j - 1] + 1;
+                    }
+                }
+                m
+            });
+            fn eqs<H: HandRanker + HandValidator>(h: &H, m: Option<u16>, o: &mut String) {
+                push_opt(o, guard(|| b(Some(h.hand_rank_value()) == m)));
+                push_opt(o, guard(|| b(Some(h.hand_rank().value) == m)));
+                push_opt(o, guard(|| b(Some(h.hand_rank_value_and_hand().0) == m)));
+                push_opt(o, guard(|| b(Some(h.hand_rank_value_validated()) == m)));
+                push_opt(o, guard(|| b(Some(h.hand_rank_validated().value) == m)));
+            }
+            match n {
+                6 => eqs(&Six::from(a6(ws)), m, &mut o),
+                7 => eqs(&Seven::from(a7(ws)), m, &mut o),
                 _ => panic!("bad size"),
             }
         },
@@ -629,13 +679,19 @@ pub fn exec(lineno: usize, l: &str) -> String {
                 let mut min6 = u16::MAX;
                 let mut min_ok = true;
                 for skip in 0..7 {
-                    let six: Vec<u64> = (0..7).filter(|i| *i != skip).map(|i| u64::from(ws[i])).collect();
+                    let mut six = [0u64; 6];
+                    for i in 0..6 {
+                        six[i] = u64::from(ws[if i < skip { i } else { i + 1 }]);
+                    }
                     let v6 = mk6(&six).hand_rank_value();
                     ok76 &= v7 <= v6;
                     min6 = min6.min(v6);
                     let mut min5 = u16::MAX;
                     for skip5 in 0..6 {
-                        let five: Vec<u64> = (0..6).filter(|i| *i != skip5).map(|i| six[i]).collect();
+                        let mut five = [0u64; 5];
+                        for i in 0..5 {
+                            five[i] = six[if i < skip5 { i } else { i + 1 }];
+                        }
                         let v5 = mk5(&five).hand_rank_value();
                         ok65 &= v6 <= v5;
                         min5 = min5.min(v5);
@@ -698,6 +754,24 @@ pub fn exec(lineno: usize, l: &str) -> String {
             push_opt(&mut o, guard(|| h.multiply_primes()));
             push_opt(&mut o, guard(|| b(evaluate::is_flush(a5(&v)))));
             push_opt(&mut o, guard(|| evaluate::or_rank_bits(a5(&v))));
+        },
+        // projection for C13: the four predicates, the deprecated free functions against the methods, and the
+        // predicates against the category NAME obtained by ranking the same hand (booleans only)
+        "pred5p" => {
+            let v = nums();
+            let h = Five::from(a5(&v));
+            let (f, s, sf) = (guard(|| h.is_flush()), guard(|| h.is_straight()), guard(|| h.is_straight_flush()));
+            push_opt(&mut o, f.map(b));
+            push_opt(&mut o, s.map(b));
+            push_opt(&mut o, sf.map(b));
+            push_opt(&mut o, guard(|| b(h.is_wheel())));
+            push_opt(&mut o, guard(|| b(Some(evaluate::is_flush(a5(&v))) == f)));
+            push_opt(&mut o, guard(|| b(evaluate::or_rank_bits(a5(&v)) == h.or_rank_bits() as usize)));
+            let name = guard(|| h.hand_rank().name);
+            let is = |a: HandRankName, c: HandRankName| name.map(|n| n == a || n == c);
+            push_opt(&mut o, guard(|| b(f.is_some() && is(HandRankName::Flush, HandRankName::StraightFlush) == f)));
+            push_opt(&mut o, guard(|| b(s.is_some() && is(HandRankName::Straight, HandRankName::StraightFlush) == s)));
+            push_opt(&mut o, guard(|| b(sf.is_some() && is(HandRankName::StraightFlush, HandRankName::StraightFlush) == sf)));
         },
         "sort" => {
             let v = nums();
@@ -828,6 +902,49 @@ pub fn exec(lineno: usize, l: &str) -> String {
                 b(x >= y)
             );
         },
+        // projections for C07: the property does not fix the order AMONG invalid ranks, only that it is a lawful
+        // total order consistent with ==; for two invalid ranks print the laws, otherwise the comparison itself
+        "hrcmpp" => {
+            let v = nums();
+            let inval = |a: u64| a == 0 || a > 7462;
+            let x = HandRank::from(v[0] as u16);
+            let y = HandRank::from(v[1] as u16);
+            let c = x.cmp(&y);
+            if inval(v[0]) && inval(v[1]) {
+                use std::cmp::Ordering::{Equal, Greater, Less};
+                let _ = write!(
+                    o,
+                    " I {} {} {} {} {} {} {} {} {}",
+                    b((c == Equal) == (x == y)),
+                    b(y.cmp(&x) == c.reverse()),
+                    b(x.partial_cmp(&y) == Some(c)),
+                    b((x == y) == (v[0] == v[1])),
+                    b((x != y) == !(x == y)),
+                    b((x < y) == (c == Less)),
+                    b((x <= y) == (c != Greater)),
+                    b((x > y) == (c == Greater)),
+                    b((x >= y) == (c != Less))
+                );
+            } else {
+                let pc = match x.partial_cmp(&y) {
+                    Some(c) => i32::from(ord_code(c)),
+                    None => 9,
+                };
+                let _ = write!(o, " {} {} {} {} {} {} {} {}", ord_code(c), pc, b(x == y), b(x != y), b(x < y), b(x <= y), b(x > y), b(x >= y));
+            }
+        },
+        "hrtri" => {
+            use std::cmp::Ordering::{Equal, Greater};
+            let v = nums();
+            let (x, y, z) = (HandRank::from(v[0] as u16), HandRank::from(v[1] as u16), HandRank::from(v[2] as u16));
+            let le = |p: &HandRank, q: &HandRank| p.cmp(q) != Greater;
+            let _ = write!(
+                o,
+                " {} {}",
+                b(!(le(&x, &y) && le(&y, &z)) || le(&x, &z)),
+                b(x.cmp(&y) != Equal || x.cmp(&z) == y.cmp(&z))
+            );
+        },
         "parsecard" => {
             let s = scalars_to_string(&nums());
             let (r, su) = parse::get_rank_and_suit(&s);
@@ -840,8 +957,9 @@ pub fn exec(lineno: usize, l: &str) -> String {
             let s = leak(scalars_to_string(&v[1..]));
             match guard(|| parse_hand(n, s)) {
                 None => o.push_str(" P"),
+                // the property says "fails", not which error: the kind is only checked to exist
                 Some(None) => {
-                    let _ = write!(o, " None {}", parse_hand_err(n, s).unwrap());
+                    let _ = write!(o, " None{}", if parse_hand_err(n, s).is_some() { "" } else { " (no error value)" });
                 },
                 Some(Some(ws)) => {
                     let _ = write!(o, " Some {}", words(&ws));
